@@ -305,6 +305,13 @@ def generate(tier):
                 sp += 1
                 add(build_struct(fl, assign, 'd', 0, sp, ctx=ctx))
                 add(build_enum(fl, assign, 'e', 'r', 0, True, sp, ctx=ctx))
+    from .common import underscorify, localsify
+    named = [c for c in cases if c is not None and ('|n1|' in c.key or '|n2|' in c.key or '|n2@' in c.key or '|n1@' in c.key or '|n5' in c.key)]
+    for c in named[::6]:
+        for tr in (underscorify, lambda c_: localsify(c_, 0), lambda c_: localsify(c_, 1)):
+            r_ = tr(c)
+            if r_:
+                cases.append(r_)
     from .common import decoy_layer
     cases += decoy_layer([c for c in cases if c is not None])
     seen, out = set(), []
